@@ -14,7 +14,7 @@ PROPS = {
     "C01": {
         "module": "core", "pkg": "./checks", "level": "exploration",
         "jobs": [
-            {"test": "TestC01", "quick": 150, "thorough": 6000, "shards_thorough": 14},
+            {"test": "TestC01", "quick": 150, "thorough": 60000, "shards_thorough": 14},
         ],
         "rule": "rapid draws (n in 2..5 [thorough 6], t in 2..n, loud|silent, schedule = choice vector + link bias table, digests of length 0..64, "
                 "signer set of size t..n); real LoudScheme/SilentScheme + bls.TBLS run DKG then an orchestrated signing session on a simulated "
@@ -28,7 +28,7 @@ PROPS = {
         "module": "core", "pkg": "./checks", "level": "exploration",
         "jobs": [
             {"test": "TestC02R", "quick": 30000, "thorough": 2000000, "shards_thorough": 14},
-            {"test": "TestC02S", "quick": 2500, "thorough": 120000, "shards_thorough": 14},
+            {"test": "TestC02S", "quick": 2500, "thorough": 300000, "shards_thorough": 14},
         ],
         "rule": "Level S: the real orchestrator (LoudScheme/SilentScheme, KeyGen and Sign) with the recorder backend, N in 3..5 participants of which 1..N-2 are "
                 "Byzantine puppets (honest for the synchronisation phases; their own MPC frames optionally muted per victim), 0..2 configured "
@@ -46,18 +46,22 @@ PROPS = {
         "module": "core", "pkg": "./checks", "level": "exploration",
         "jobs": [
             {"test": "TestC03R", "quick": 30000, "thorough": 2000000, "shards_thorough": 14},
-            {"test": "TestC03S", "quick": 2500, "thorough": 120000, "shards_thorough": 14},
+            {"test": "TestC03S", "quick": 2500, "thorough": 300000, "shards_thorough": 14},
+            {"test": "TestC06", "quick": 600, "thorough": 60000, "shards_thorough": 14},
         ],
         "rule": "Same generated runs as C02 (Level R and Level S). Oracle: every broadcast hand-off is non-nil, attributed to a participant, equals a payload that "
                 "the attributed sender transmitted directly to this party before the hand-off, and happens at most once per (party, sender, round); "
-                "every point-to-point hand-off equals the next received frame of that link. Non-trivial as for C02.",
+                "every point-to-point hand-off equals the next received frame of that link; the broadcast flag handed to the backend equals the payload's "
+                "class. Non-trivial as for C02. Level S uses the identity membership; the attribution clause under arbitrary (non-monotone, replicated) "
+                "node-to-party maps is decided by TestC06's clause 'every OnMsg.from equals the party of the node that emitted the payload', which "
+                "therefore also runs here.",
         "assumptions": COMMON_ASSUME,
     },
     "C04": {
         "module": "core", "pkg": "./checks", "level": "exploration",
         "jobs": [
             {"test": "TestC04R", "quick": 30000, "thorough": 2000000, "shards_thorough": 14},
-            {"test": "TestC04S", "quick": 2500, "thorough": 120000, "shards_thorough": 14},
+            {"test": "TestC04S", "quick": 2500, "thorough": 300000, "shards_thorough": 14},
         ],
         "rule": "Level R, all honest, N in 2..5, up to 9 sends (broadcasts in rounds 1..3 by several senders, point-to-point), weighted delivery "
                 "schedule run to quiescence. Oracle: every broadcast handed exactly once to every other party, every point-to-point message exactly "
@@ -69,7 +73,9 @@ PROPS = {
         "module": "core", "pkg": "./checks", "level": "fault_enumeration",
         "jobs": [
             {"test": "TestC11Enum", "quick": 1, "thorough": 1, "shards_thorough": 14, "timeout_quick": 1500},
-            {"test": "TestC11Rand", "quick": 150, "thorough": 6000, "shards_thorough": 14},
+            {"test": "TestC11Rand", "quick": 150, "thorough": 40000, "shards_thorough": 14},
+            {"test": "TestC11Backend", "quick": 1, "thorough": 1, "shards_thorough": 14},
+            {"test": "TestC11BackendRand", "quick": 400, "thorough": 60000, "shards_thorough": 14},
             {"test": "TestC11Adapters", "module": "binance", "pkg": "./checks", "quick": 1, "thorough": 1, "timeout_thorough": 1800},
         ],
         "rule": "Full stack (LoudScheme/SilentScheme; BLS, PS and a scripted backend; KeyGen and Sign) under virtual time. For each configuration a "
@@ -79,7 +85,13 @@ PROPS = {
                 "call returns (error or success) by deadline+grace of virtual time, no panic during the run or a 3-minute virtual linger, successes agree "
                 "on public material. TestC11Adapters drives the tss-lib adapters directly: unusable share data, a 50 ms key-generation deadline, "
                 "a digest tss-lib refuses with a context without deadline, an absent peer during Sign / KeyGen - each call must return an error, "
-                "neither panic nor block. Non-trivial = the fault actually removed a frame / hit a running call. Distinct = configuration + fault.",
+                "neither panic nor block. Cancellation INSIDE a callback (as built after seeded changes C11-m3/m4): the caller's context ends inside its "
+                "own j-th Send call (every j, with and without muting everything that would reach the caller afterwards) or inside the backend factory / "
+                "Init / SetShareData / entry of KeyGen or Sign of its protocol instance - the only way to put the end of a context between two steps "
+                "that no quiescent point separates; afterwards one more call on that node must come back by its own deadline. TestC11Backend(+Rand) "
+                "drives bls.TBLS / ps.TPS KeyGen directly over an ideal broadcast with the same (peer,k) and (caller,j,mute) enumerations: the "
+                "orchestrator returns when its context ends whatever the backend does, so a backend that sleeps for ever is only visible there. "
+                "Non-trivial = the fault actually removed a frame / hit a running call. Distinct = configuration + fault.",
         "exhaustive_claim": False,
         "exhaustive_parts": "per listed configuration and reference schedule the (peer,k) and single-withheld-frame spaces are enumerated completely; configurations and schedules are a finite sample",
         "assumptions": COMMON_ASSUME + ["a vanished peer is modelled as a node whose outgoing frames are dropped after the k-th"],
@@ -87,8 +99,8 @@ PROPS = {
     "C05": {
         "module": "core", "pkg": "./checks", "level": "exploration",
         "jobs": [
-            {"test": "TestC05B", "quick": 500, "thorough": 14000, "shards_thorough": 14},
-            {"test": "TestC05S", "quick": 600, "thorough": 40000, "shards_thorough": 14},
+            {"test": "TestC05B", "quick": 500, "thorough": 150000, "shards_thorough": 14},
+            {"test": "TestC05S", "quick": 600, "thorough": 200000, "shards_thorough": 14},
         ],
         "rule": "Level B: real bls.TBLS / ps.TPS backends driven through Init/OnMsg/KeyGen over the simulated network with an ideal broadcast; one "
                 "participant is a puppet whose outgoing traffic is rewritten by a strategy drawn from a catalogue of 19 deviations (off-polynomial / "
@@ -109,9 +121,9 @@ PROPS = {
         "module": "core", "pkg": "./checks", "level": "exploration",
         "jobs": [
             {"test": "TestC10Hostile", "quick": 1, "thorough": 1, "shards_thorough": 14},
-            {"test": "TestC10Loud", "quick": 800, "thorough": 30000, "shards_thorough": 14},
-            {"test": "TestC10Silent", "quick": 800, "thorough": 30000, "shards_thorough": 14},
-            {"test": "TestC10Crypto", "quick": 6000, "thorough": 400000, "shards_thorough": 14},
+            {"test": "TestC10Loud", "quick": 800, "thorough": 100000, "shards_thorough": 14},
+            {"test": "TestC10Silent", "quick": 800, "thorough": 100000, "shards_thorough": 14},
+            {"test": "TestC10Crypto", "quick": 6000, "thorough": 1000000, "shards_thorough": 14},
             {"test": "TestC05B", "quick": 300, "thorough": 6000, "shards_thorough": 14},
             {"test": "TestC03R", "quick": 10000, "thorough": 200000, "shards_thorough": 14},
             {"test": "TestC10Adapters", "module": "binance", "pkg": "./checks", "quick": 50, "thorough": 1600, "shards_thorough": 8},
@@ -136,8 +148,8 @@ PROPS = {
     "C07": {
         "module": "core", "pkg": "./checks", "level": "exploration",
         "jobs": [
-            {"test": "TestC07Honest", "quick": 700, "thorough": 40000, "shards_thorough": 14},
-            {"test": "TestC07Byz", "quick": 1100, "thorough": 40000, "shards_thorough": 14},
+            {"test": "TestC07Honest", "quick": 700, "thorough": 80000, "shards_thorough": 14},
+            {"test": "TestC07Byz", "quick": 1100, "thorough": 80000, "shards_thorough": 14},
         ],
         "rule": "disc.Member instances on the simulated network under virtual time: universe of 2..8 configured members with identifiers over the "
                 "full 16-bit range (boundary-biased), honest participant subset, expected count (>= 2), 1..3 topics in parallel on one Member, probe "
@@ -155,7 +167,7 @@ PROPS = {
         "module": "core", "pkg": "./checks", "level": "exploration",
         "jobs": [
             {"test": "TestC13Sync", "quick": 1, "thorough": 1, "shards_thorough": 14},
-            {"test": "TestC13Stack", "quick": 500, "thorough": 20000, "shards_thorough": 14},
+            {"test": "TestC13Stack", "quick": 500, "thorough": 100000, "shards_thorough": 14},
         ],
         "rule": "(a) exhaustive: synchronisation-only sessions for ALL pairs and ALL triples (thorough: all 4-tuples) of the 17 boundary identifiers "
                 "{0,1,2,127,128,255,256,257,0x105,511,512,0x205,0x7FFF,0x8000,0xFF00,0xFFFE,0xFFFF} must complete with the full list; (b) rapid: "
@@ -189,7 +201,7 @@ PROPS = {
     "C08": {
         "module": "core", "pkg": "./checks", "level": "exploration",
         "jobs": [
-            {"test": "TestC08", "quick": 300, "thorough": 12000, "shards_thorough": 14},
+            {"test": "TestC08", "quick": 300, "thorough": 36000, "shards_thorough": 14},
         ],
         "rule": "rapid draws L in 1..4, a message vector (arbitrary byte strings incl. empty, equal entries, 1 KiB), n in 2..4 (thorough 5), t in 2..n, "
                 "a delivery schedule for the backend-level DKG and the order in which signer subsets are handed to the prover (ascending, descending, "
@@ -220,7 +232,7 @@ PROPS = {
     "C06": {
         "module": "core", "pkg": "./checks", "level": "exploration",
         "jobs": [
-            {"test": "TestC06", "quick": 1500, "thorough": 60000, "shards_thorough": 14},
+            {"test": "TestC06", "quick": 1500, "thorough": 600000, "shards_thorough": 14},
         ],
         "rule": "Full stack with spy backends: universe of 3..7 nodes with distinct 16-bit node identifiers (boundary-biased), party identifiers with "
                 "generated collisions (1..3 replicas per party; identity maps <= 20%), participants = one replica per chosen party (valid) or two "
@@ -234,7 +246,7 @@ PROPS = {
     "C12": {
         "module": "core", "pkg": "./checks", "level": "exploration",
         "jobs": [
-            {"test": "TestC12", "quick": 700, "thorough": 30000, "shards_thorough": 14},
+            {"test": "TestC12", "quick": 700, "thorough": 200000, "shards_thorough": 14},
         ],
         "rule": "Stateful, model-based: rapid draws a list of 2..8 operations on one cluster of 3..4 nodes (+ a configured outsider and an unknown "
                 "node), loud or silent: KeyGen by all / all but one, Sign(topic in {t0,t1}) complete / one signer missing / cancelled after k "
@@ -290,7 +302,7 @@ PROPS = {
         "module": "core", "pkg": "./checks", "level": "exploration",
         "jobs": [
             {"test": "TestC16Sweep", "quick": 1, "thorough": 1},
-            {"test": "TestC16", "quick": 25, "thorough": 1200, "shards_thorough": 8},
+            {"test": "TestC16", "quick": 25, "thorough": 4000, "shards_thorough": 8},
         ],
         "rule": "Real TLS 1.3 over loopback against net.Listen/net.ServiceConnections with 4 registered ECDSA identities over 3 domains plus a "
                 "registered RSA and Ed25519 identity. A case is a batch of 10..20 raw client connections, each a variant of a valid handshake followed "
@@ -326,7 +338,7 @@ PROPS = {
     "C20": {
         "module": "core", "pkg": "./checks", "level": "exploration",
         "jobs": [
-            {"test": "TestC20", "quick": 70, "thorough": 2800, "shards_thorough": 14, "race": True, "timeout_quick": 1200},
+            {"test": "TestC20", "quick": 70, "thorough": 8000, "shards_thorough": 14, "race": True, "timeout_quick": 1200},
         ],
         "rule": "Built with -race (GORACE=halt_on_error=1), real time, threshold.SyncInterval = 2 ms: real LoudScheme/SilentScheme nodes (n in 3..4; "
                 "BLS, PS, scripted backend) on a network with ONE DISPATCHER GOROUTINE PER INCOMING LINK of every node, so HandleMessage runs "
